@@ -114,6 +114,7 @@ type payload struct {
 	raw   string
 	kind  int
 	query []kv
+	lean  bool
 	tweak func(b *build, id identity)
 }
 
@@ -146,9 +147,12 @@ func payloadsOf(route string) []payload {
 	case "PUT /admin/tokens/":
 		return []payload{jsonBody("", arr(someUUID, "0b8f7c1e-9d6a-4b5c-8e7f-1a2b3c4d5e6f"))}
 	case "POST /admin/users/":
-		return []payload{jsonBody("", obj("name", "vnew", "password", "pw-new-c40", "permissions", arr("ego.logon", "ego.table.read")))}
+		// a password costs one bcrypt run of cost 12 per accepted request: the variant with one is kept lean
+		return []payload{jsonBody("", obj("name", "vnew", "permissions", arr("ego.logon", "ego.table.read"))),
+			jsonBody("password", obj("name", "vnew", "password", "pw-new-c40", "permissions", arr("ego.logon"))).leanOne()}
 	case "PATCH /admin/users/{{name}}":
-		return []payload{jsonBody("", obj("name", plainName, "password", "pw-changed-c40", "permissions", arr("+ego.table.read", "-ego.logon")))}
+		return []payload{jsonBody("", obj("name", plainName, "permissions", arr("+ego.table.read", "-ego.logon"))),
+			jsonBody("password", obj("name", plainName, "password", "pw-changed-c40", "permissions", arr("+ego.table.read"))).leanOne()}
 	case "POST /dsns/":
 		return []payload{jsonBody("", obj("name", "vnewdsn", "provider", "sqlite", "database", "/nonexistent/c40.db", "host", "", "port", 0, "user", "u", "password", "p", "schema", "", "secured", false, "restricted", true, "rowid", true))}
 	case "PATCH /dsns/{{dsn}}/":
@@ -264,6 +268,17 @@ func payloadsOf(route string) []payload {
 	return nil
 }
 
+// leanRoutes are routes whose handler is costly whatever the request says.
+var leanRoutes = map[string]string{
+	"GET /admin/serverinfo": "gopsutil host.Info walks /proc",
+}
+
+func (p payload) leanOne() payload {
+	p.lean = true
+
+	return p
+}
+
 func (p payload) with(f func(b *build, id identity)) payload {
 	p.tweak = f
 
@@ -289,7 +304,7 @@ func (p *plan) variantsOf(f router.VerifC20Flags) []variant {
 
 	for _, pl := range pls {
 		pl := pl
-		out = append(out, variant{name: pl.name, route: route, flags: f, mk: func(id identity) *build {
+		out = append(out, variant{name: pl.name, route: route, flags: f, lean: pl.lean || leanRoutes[route] != "", mk: func(id identity) *build {
 			b := &build{method: f.Method, endpoint: f.Endpoint, vars: map[string]string{}}
 
 			if b.method == router.AnyMethod || b.method == "" {
